@@ -312,6 +312,11 @@ impl<'tcx> Cx<'tcx> {
             }
         }
         let mut v = vec![("k", s("Block")), ("stmts", J::Arr(stmts))];
+        if matches!(blk.safety_mode, thir::BlockSafety::ExplicitUnsafe(_)) {
+            v.push(("unsafe", J::Bool(true)));
+            v.push(("unsafe_sp", self.sp(blk.span)));
+            v.push(("unsafe_mac", self.macro_of(blk.span)));
+        }
         if let Some(e) = blk.expr {
             v.push(("expr", self.expr(th, e)));
         }
